@@ -104,3 +104,15 @@ Theorem C11_magic_keeps_other_transformers : forall ops,
   nonjax (xfs (irun ops is0)) = others_added ops.
 Proof. intros ops. exact (magic_keeps_others ops is0). Qed.
 Print Assumptions C11_magic_keeps_other_transformers.
+
+(* ---------- the name test REGENERATED FROM THE SOURCE ----------
+   translator/tr_pyl.py turns the AST of _JaxtypingFinder.should_instrument into a term of the deep embedding model/PyL.v
+   (gen/CheckDimsSrc.v: should_instrument_src); interpreting it computes model/HookScope.v's should_instrument for every
+   list of hook names and every module name -- so C11_should_instrument_spec above (equal to a name, or beneath one as a
+   list of dotted components) is a theorem about what the source says now *)
+From JT Require Import model.PyL gen.ShouldInstrumentSrc proofs.PyLHookFacts.
+Theorem C11_should_instrument_source_refines_model : forall lbl st call names m env,
+  env "self" = Some (VFinder names) -> env "module_name" = Some (VS m) ->
+  exists env2, run_body_with call lbl st should_instrument_src env = OReturn (VB (should_instrument names m)) env2.
+Proof. exact should_instrument_src_refines_model. Qed.
+Print Assumptions C11_should_instrument_source_refines_model.
